@@ -348,10 +348,11 @@ class ParseTreeMap(Generic[ClassType1, ObjType1, ClassType2, ObjType2]):
         if not rule1.children:
             return ParseTreeMap._min_object(rule2)
 
-        assert isinstance(rule1, Rule) and isinstance(rule2, Rule)
+        assert isinstance(rule1, Rule)
         mapped_obj, idx = rule1.indexed_forward_map(obj)
 
         if rule2.is_equivalence():
+            assert isinstance(rule2, Rule)
             if not rule1.is_equivalence():
                 # Backward map the outcome of a recursion when
                 # we move one rule further in spec2 only.
@@ -376,6 +377,7 @@ class ParseTreeMap(Generic[ClassType1, ObjType1, ClassType2, ObjType2]):
         else:
             # Fetch the matching order to know what parts to recurse together.
             order = self.get_order[(rule1.comb_class, rule2.comb_class)]
+        assert isinstance(rule2, Rule)
 
         # Sort rule1's children to match those of rule 2
         _children = self._get_nonempty(rule1, mapped_obj)
